@@ -228,7 +228,7 @@ func (pdb *pgDb) Get(ctx context.Context, key []byte) ([]byte, error) {
 // Close implements Db.
 func (pdb *pgDb) Close(ctx context.Context) error {
 	err := pdb.Stop(ctx)
-	if err == db.ErrNoTx {
+	if err == db.ErrNoTx || err == db.ErrSingleTx {
 		err = nil
 	}
 	pdb.conn.Close()
